@@ -34,6 +34,7 @@ pub struct Mon {
 	pub rep: Report,
 	tick: u64,
 	rng: Rng,
+	scratch: Vec<u8>,
 }
 
 fn err_name(e: &PErr) -> &'static str {
@@ -284,6 +285,7 @@ impl Mon {
 			rep: Report::new(),
 			tick: 0,
 			rng: Rng::new(seed),
+			scratch: Vec::new(),
 		}
 	}
 
@@ -472,6 +474,35 @@ impl Mon {
 		}
 
 		let rs = real::parse_slice_with(b, Opts::STRICT);
+
+		// the same bytes at another address alignment (a sub-slice of a larger buffer) must give the same
+		// outcome: whatever the byte-slice front end does word-wise must not depend on where the slice starts
+		if b.len() >= 16 && (self.tick % 4 == 3 || fam == "corpus-edits") {
+			let off = 1 + (self.tick as usize / 4) % 15;
+			self.scratch.clear();
+			self.scratch.resize(off, b'#');
+			self.scratch.extend_from_slice(b);
+			let shifted = std::mem::take(&mut self.scratch);
+			let rs2 = real::parse_slice_with(&shifted[off..], Opts::STRICT);
+			self.rep.count("byte_inputs_reparsed_at_another_alignment", 1);
+			let same = match (&rs, &rs2) {
+				(Ok((v1, m1)), Ok((v2, m2))) => m1 == m2 && (b.len() > 4096 || v1 == v2),
+				(Err(e1), Err(e2)) => e1 == e2,
+				_ => false,
+			};
+			if !same {
+				let prop = if f.c01 && rs.is_ok() != rs2.is_ok() { "C01" } else if f.c07 { "C07" } else if f.c05 { "C05" } else if f.c02 { "C02" } else if f.c12 { "C12" } else { "C01" };
+				self.viol(
+					prop,
+					"alignment-dependent",
+					fam,
+					format!("parse_slice_with gives {:?} on the buffer itself and {:?} on the same bytes at address offset {}", rs.as_ref().map(|_| "Ok").map_err(|e| e.clone()), rs2.as_ref().map(|_| "Ok").map_err(|e| e.clone()), off),
+					b,
+					json!({"entry": "parse_slice_with", "offset": off}),
+				);
+			}
+			self.scratch = shifted;
+		}
 
 		if f.c01 {
 			self.c01(fam, b, &rd, text, &rs, want_strict);
